@@ -322,6 +322,35 @@ func pipelineCorpus() []*Prog {
 		add(x86.MOVB(operand.U8(7), x.As8()))
 		add(x86.JMP(operand.LabelRef("mid")))
 	})
+	mk("a referenced label sits on a jump to the following label; a virtual register is live only along that edge", func(c *reg.Collection, add func(*ir.Instruction, error), lbl func(string)) {
+		a, b := c.GP64(), c.GP64()
+		add(x86.MOVQ(operand.U32(42), a))
+		add(x86.MOVQ(operand.U32(5), b))
+		add(x86.TESTQ(b, b))
+		add(x86.JNE(operand.LabelRef("lx")))
+		add(x86.MOVQ(operand.U32(1), a))
+		lbl("lx")
+		add(x86.JMP(operand.LabelRef("lt")))
+		lbl("lt")
+		add(x86.ADDQ(a, b))
+		add(x86.MOVQ(b, reg.RAX))
+		add(x86.RET())
+	})
+	mk("if/else whose else arm is only the jump to the join label that follows; a value live only through it", func(c *reg.Collection, add func(*ir.Instruction, error), lbl func(string)) {
+		r, x := c.GP64(), c.GP64()
+		add(x86.MOVQ(operand.U32(7), r))
+		add(x86.MOVQ(operand.U32(9), x))
+		add(x86.TESTQ(x, x))
+		add(x86.JE(operand.LabelRef("els")))
+		add(x86.MOVQ(x, r))
+		add(x86.ADDQ(r, r))
+		add(x86.JMP(operand.LabelRef("endif")))
+		lbl("els")
+		add(x86.JMP(operand.LabelRef("endif")))
+		lbl("endif")
+		add(x86.MOVQ(r, reg.RAX))
+		add(x86.RET())
+	})
 	mk("32-bit self-move after binding (MOVL v,v)", func(c *reg.Collection, add func(*ir.Instruction, error), lbl func(string)) {
 		a := c.GP64()
 		add(x86.MOVQ(operand.I64(-1), a))
